@@ -428,6 +428,18 @@ func c15ArrayCases(recv []any) []c15Case {
 		out = append(out, arrCase("map", "cb:element", recv, "function($e) { return $e * 2; }", m1, recv))
 		out = append(out, arrCase("map", "cb:element+index", recv, "function($e, $i) { return $e + $i; }", m2, recv))
 		out = append(out, arrCase("flatMap", "cb:element", recv, "function($e) { return [$e, $e * 2]; }", fm, recv))
+		// flatMap flattens exactly one level: what the callback nests deeper stays nested
+		var fm2, fm3 []any
+		for _, v := range recv {
+			e := v.(int64)
+			fm2 = append(fm2, []any{e, e * 10})
+			fm3 = append(fm3, e, []any{e})
+		}
+		if fm2 == nil {
+			fm2, fm3 = []any{}, []any{}
+		}
+		out = append(out, arrCase("flatMap", "cb:returns-nested", recv, "function($e) { return [[$e, $e * 10]]; }", fm2, recv))
+		out = append(out, arrCase("flatMap", "cb:returns-mixed-depth", recv, "function($e) { return [$e, [$e]]; }", fm3, recv))
 		out = append(out, arrCase("reduce", "with-initial", recv, "function($acc, $cur) { return $acc + $cur; }, 100", 100+sum, recv))
 		if n > 0 {
 			out = append(out, arrCase("reduce", "no-initial", recv, "function($acc, $cur) { return $acc + $cur; }", sum, recv))
@@ -640,6 +652,13 @@ func c15Receivers() [][]any {
 	}
 }
 
+// receivers for trim(): the white space JavaScript's trim strips (and NUL, which it does not)
+var c15TrimStrings = []string{"\x0cab\x0c", "\u00a0ab\u00a0", "\u3000ab", "ab\u3000\u00a0", "\x00ab\x00", "\tab\n", "\vab\v", "\r\n a b \r\n", "\u2028ab\u2029", "\x00 ab"}
+
+func jsTrim(s string) string {
+	return strings.Trim(s, " \t\n\v\f\r\u00a0\u3000\u2028\u2029")
+}
+
 var c15Strings = []string{"", "a", "ab", "a b", " ab ", "abab", "ba b a", "aé", "世a世", "é b"}
 
 func TestC15(t *testing.T) {
@@ -703,6 +722,9 @@ func TestC15(t *testing.T) {
 		for _, c := range c15StringCases(s) {
 			run(c)
 		}
+	}
+	for _, ts := range c15TrimStrings {
+		run(strCase("trim", "unicode-space-or-nul", ts, "", jsTrim(ts)))
 	}
 	rec.R.Exhaustive = true
 	rec.Flush()
